@@ -5,11 +5,13 @@
 
     All subscribers of one dispatcher live in ONE value [fsys] (object store
     in creation order + [Dispatcher.subscribers] as indices into it), because
-    some observers read OTHER observers: [RemainingOperationsObserver] reads
-    the unscheduled-operations observer in [initialize_features] (constructor
-    and [reset]), [IsCompletedObserver] copies the remaining-operations
-    observer's arrays in [initialize_features] (constructor and [reset]), the
-    composite re-concatenates its components' arrays at EVERY notification.
+    observers create / look up OTHER observers: [RemainingOperationsObserver]
+    calls [create_or_get_observer(UnscheduledOperationsObserver)] and
+    [IsCompletedObserver] calls [create_or_get_observer(RemainingOperationsObserver, ...)]
+    in [initialize_features] (constructor and [reset]) — since the repair
+    196fa58 only for the side effect of having them subscribed: both count
+    [dispatcher.unscheduled_operations()] themselves —, and the composite
+    re-concatenates its components' arrays at EVERY notification.
     The system is driven through the dispatcher world of World.v with
     [O := fsys]: [f_update I fs d x] / [f_reset I fs d] have the signatures of
     [o_update] / [o_reset] and see the dispatcher state AFTER the dispatch /
@@ -168,6 +170,9 @@ Section Reads.
 
   (** *** DurationObserver.initialize_features *)
   Definition dur_ops : list Z := map (kdur I) (all_keys I).
+  (** [_initialize_job_durations] (after 19e9d43): summed over the unscheduled operations *)
+  Definition dur_jobs : list Z :=
+    fold_left (fun v k => addat v (fst k) (kdur I k)) (unscheduled_ops I d) (zeros (num_jobs I)).
   Definition machine_loads : list Z :=
     map (fun m => sumZ (flat_map (fun k => map (fun m' => if (m' =? m)%nat then kdur I k else 0) (kmachines I k))
                                  (all_keys I))) (seq 0 (num_machines I)).
@@ -270,16 +275,18 @@ Section Sys.
   Let M := num_machines I.
   Let J := num_jobs I.
 
-  (** *** RemainingOperationsObserver.initialize_features, given the deques
-      of the unscheduled-operations observer: [+= 1] per operation on its job
-      and on EVERY eligible machine (a fancy-indexed [+=] counts a repeated
-      index once) *)
-  Definition rem_init (dq : list (list (nat * nat))) (o : fobs) : fobs :=
-    let us := concat dq in
-    set_feats o (fo_ops o)
-      (option_map (fun v => fold_left (fun v k => fold_left (fun v m => addat v m 1) (dedup_nat (kmachines I k)) v) us v)
-                  (fo_mach o))
-      (option_map (fun v => fold_left (fun v k => addat v (fst k) 1) us v) (fo_jobs o)).
+  (** counting a list of operations per machine: [+= 1] on EVERY eligible
+      machine (a fancy-indexed [+=] counts a repeated index once) *)
+  Definition count_mach (us : list (nat * nat)) (v : list Z) : list Z :=
+    fold_left (fun v k => fold_left (fun v m => addat v m 1) (dedup_nat (kmachines I k)) v) us v.
+  Definition count_jobs (us : list (nat * nat)) (v : list Z) : list Z :=
+    fold_left (fun v k => addat v (fst k) 1) us v.
+
+  (** *** RemainingOperationsObserver.initialize_features: [+= 1] per
+      operation of [dispatcher.unscheduled_operations()] on its job and on
+      every eligible machine *)
+  Definition rem_init (us : list (nat * nat)) (o : fobs) : fobs :=
+    set_feats o (fo_ops o) (option_map (count_mach us) (fo_mach o)) (option_map (count_jobs us) (fo_jobs o)).
 
   (** *** create_or_get_observer(UnscheduledOperationsObserver) *)
   Definition unsched_obj : fobs :=
@@ -301,8 +308,8 @@ Section Sys.
 
   (** [RemainingOperationsObserver.initialize_features] for the object at [i] *)
   Definition rem_initialize (s : fsys) (i : nat) : fsys :=
-    let '(s1, u) := get_unsched s in
-    fput s1 i (rem_init (fo_dq (fget s1 u)) (fget s1 i)).
+    let '(s1, _) := get_unsched s in       (* only for the side effect *)
+    fput s1 i (rem_init (unscheduled_ops I d) (fget s1 i)).
 
   Definition new_remops (m : ftm) (s : fsys) : fsys * nat :=
     let '(s1, i) := fappend s (zero_obj FRemOps m) in
@@ -319,12 +326,12 @@ Section Sys.
   Definition comp_initialize (s : fsys) (i : nat) : fsys :=
     let o := zeroed (fget s i) in
     let s0 := fput s i o in
-    let '(s1, r) := get_remops (fo_mask o) s0 in
-    let ro := fget s1 r in
+    let '(s1, _) := get_remops (fo_mask o) s0 in      (* only for the side effect *)
     let o1 := fget s1 i in
+    let us := unscheduled_ops I d in
     fput s1 i (set_rem o1
-                 (match fo_mach o1, fo_mach ro with Some _, Some v => v | _, _ => fo_remm o1 end)
-                 (match fo_jobs o1, fo_jobs ro with Some _, Some v => v | _, _ => fo_remj o1 end)).
+                 (match fo_mach o1 with Some _ => count_mach us (zeros M) | None => fo_remm o1 end)
+                 (match fo_jobs o1 with Some _ => count_jobs us (zeros J) | None => fo_remj o1 end)).
 
   (** *** Simple observers: the object after [initialize_features] *)
   Definition est_features (o : fobs) : fobs :=
@@ -341,7 +348,7 @@ Section Sys.
     | FEst => est_features o
     | FDuration => set_feats o (option_map (fun _ => dur_ops I) (fo_ops o))
                                (option_map (fun _ => machine_loads I) (fo_mach o))
-                               (option_map (fun _ => job_durations I) (fo_jobs o))
+                               (option_map (fun _ => dur_jobs I d) (fo_jobs o))
     | FPosInJob => set_feats o (option_map (pos_init I d) (fo_ops o)) (fo_mach o) (fo_jobs o)
     | _ => o
     end.
